@@ -17,8 +17,8 @@
  *   F <h>                               vnacal_new_free
  *   V <h>                               (C side only, one line "D ...") the solved error terms of the handle: values, finite or not
  *   end                                 delete the user parameters, vnacal_free (tracked)
- * Before every op a forked child runs the same op without fault and prints the argument class the model
- * needs ("I ..."); then the op runs with the requested fault and prints
+ * Before every op with a fault (k >= 0) a forked child runs the same op without fault and prints the argument class the model
+ * needs ("I ..."); an op without fault prints it itself.  Then the op runs with the requested fault and prints
  *   R <Done|Err> <errno class> <live tracked blocks> <requests made> | <holds taken on each parameter> | <per handle summary>
  */
 #define _GNU_SOURCE
@@ -154,7 +154,8 @@ static int run_op(const char *op, char **tok, int ntok, long k, int info, int *p
 		int conn = !(VL_TYPE(vlp) == VNACAL_T16 || VL_TYPE(vlp) == VNACAL_U16);
 		printf("I 1 %d %d %d %d %d %d %d %d\n", rows * cols, mx * mx, eterms, leak, n->vn_systems, conn, vlp->vl_t_terms, freqs);
 	    }
-	} else if (n != NULL && nh < MAXH) { hv[nh] = n; hrows[nh] = rows; hcols[nh] = cols; hfreqs[nh] = freqs; ++nh; }
+	}
+	if (info != 1 && n != NULL && nh < MAXH) { hv[nh] = n; hrows[nh] = rows; hcols[nh] = cols; hfreqs[nh] = freqs; ++nh; }
 	return rc;
     }
     if (v == NULL) {
@@ -248,7 +249,7 @@ static int run_op(const char *op, char **tok, int ntok, long k, int info, int *p
 	*perrno = 0;
 	verif_alloc_track(0);
 	rc = 0;
-	if (!info) hv[h] = NULL;
+	if (info != 1) hv[h] = NULL;
 	if (info) printf("I\n");
     }
     return rc;
@@ -328,6 +329,17 @@ int main(int argc, char **argv)
 		    printf(" %.9g,%.9g", creal(z) + 0.0, cimag(z) + 0.0);
 		}
 	    printf(" finite=%d\n", finite);
+	    continue;
+	}
+	if (k < 0) {
+	    /* no fault requested: the op itself yields its argument class (info = 2: print the I line and keep the effects) */
+	    int e = 0;
+	    int rc = run_op(op, tok + 2, ntok - 2, -1, 2, &e);
+	    long made = verif_alloc_count;
+	    if (op[0] == 'S' && rc != 0 && e != EINVAL) { printf("R SKIP E0 0 0 | |\n"); continue; }	/* numeric failure: not an op of the model (no effect) */
+	    printf("R %s %s %ld %ld", rc == 0 ? "Done" : "Err", rc == 0 ? "E0" : ecls(e), verif_live_blocks() - base_live, made);
+	    summary();
+	    printf("\n");
 	    continue;
 	}
 	/* the argument class, from a child that runs the same op without fault */
